@@ -347,6 +347,21 @@ class BuiltinMixin:
 
   lib_more_itertools_sliced = lib_mit_sliced
 
+  def lib_mit_padded(self, it, a, k):
+    """more_itertools.padded(iterable, fillvalue, n) (trusted, A2): the elements, then `fillvalue` until at least n items."""
+    seq = self.unopt(a[0])
+    fill = a[1] if len(a) > 1 else k.get('fillvalue', NONE)
+    n = self.to_int(a[2] if len(a) > 2 else k['n'])
+    s = seq.seq if isinstance(seq, VMList) else seq
+    if not isinstance(s, VSeq):
+      raise Unsupported(f'mit.padded of {type(seq).__name__}')
+    j = z3.Int(self.path.fresh_name('j'))
+    total = z3.If(s.n >= n, s.n, n)
+    arr = z3.Lambda([j], z3.If(j < s.n, z3.Select(s.arr, j), self.unwrap(s.kind, fill)))
+    return VSeq(arr, z3.simplify(total), s.kind)
+
+  lib_more_itertools_padded = lib_mit_padded
+
   def np_zeros(self, it, a, k):
     n = z3.simplify(self.to_int(a[0]))
     if not z3.is_int_value(n):
